@@ -40,6 +40,7 @@ def gen(rng, tier):
 
 class C04(Prop):
     id = "C04"
+    track_states = True
     quick_runs = 2000
     thorough_runs = 40000
     assumptions = ["'too large to send' is emulated by an argument whose pickling raises struct.error "
